@@ -88,6 +88,27 @@ def run(case, ctx):
                 return ctx.fail(f"window-single-{f}/values", f"{f} over {vals} by {key_tuples}: got {cols[-1]} want {want}")
     if R.snapshot_table(t) != snap:
         return ctx.fail("window/input-modified", "table changed during window")
+    # the same window again after a key cell changed to a value hash() cannot tell from the old one
+    te = R.twin_edit(case, t, over)
+    if te is not None:
+        over2, kt2 = te
+        groups2 = ref_groups(kt2)
+        g2 = {}
+        for g, (_, idx) in enumerate(groups2):
+            for i in idx:
+                g2[i] = g
+        ctx.ev()
+        ctx.label("twin_edit")
+        over_arg2 = over2[0] if (case["single"] and nk == 1) else over2
+        w2 = t.window(over=over_arg2, count_over=vspecs[0])
+        vals0 = case["vals"][0]["values"]
+        per = [ref_agg("count", [vals0[i] for i in g[1]]) for g in groups2]
+        got2 = list(w2.cols()[-1])
+        if got2 != [per[g2[i]] for i in range(n)]:
+            return ctx.fail("window/stale-after-key-edit-to-hash-twin", f"keys now {kt2}: got {got2}, want {[per[g2[i]] for i in range(n)]}")
+        for c in range(nk):
+            if [freeze(x) for x in w2.cols()[c]] != [freeze(k[c]) for k in kt2]:
+                return ctx.fail("window/key-column-changed", f"after key edit: key column {c} {list(w2.cols()[c])}")
     if inter and varies:
         ctx.nontrivial()
 
